@@ -139,6 +139,65 @@ theorem C20_pending_accounting (locked : List Room) (live : Bool) (rooms rooms' 
   | false => exact Or.inr rfl
   | true => exact Or.inl (roomLoop_live_perm h)
 
+/-- **C20 (head of line, the part of "eventually granted" that holds).** The peer at the back of
+    the queue whose receiver is live and which has a free pending room is granted a room by the next
+    acquisition round. -/
+theorem C20_head_of_line_partial (s : State) (p : Peer) (q : List Peer) (req : Req)
+    (hq : s.queue = p :: q) (hl : lookup p s.reqs = some req) (hlive : req.ch ∉ s.dead)
+    (hfree : ∃ r ∈ req.rooms, r ∉ s.locked) :
+    ∃ s' r, acquire s = (s', some (req.ch, r)) :=
+  acquire_head_of_line hq hl hlive hfree
+
+/-! ### "every requested room is eventually granted as long as granted rooms are released" is FALSE
+
+A waiting peer that is scanned while its rooms are locked, in a pass that ends with a grant to a
+peer scanned after it, is re-queued at the FRONT of the queue (`room_locking_service.rs:111-113`):
+every peer that arrived later and was not scanned overtakes it. The schedule below returns to the
+same state, so it can be repeated for ever: every granted room is released, room 1 is released and
+granted again in every round, and peer 1 — live receiver, waiting for room 1 since before — never
+gets it. -/
+
+def starvePre : List Op :=
+  [.request 3 [1] 3, .request 4 [2] 4,          -- rooms 1 and 2 are held (limit 2)
+   .request 1 [1] 1,                             -- peer 1 waits for room 1
+   .request 2 [2] 2, .request 3 [1] 3,           -- later arrivals: peer 2 waits for 2, peer 3 for 1
+   .unlock 2, .unlock 1]
+
+def starveCycle : List Op :=
+  [.request 2 [2] 2, .request 3 [1] 3, .unlock 2, .unlock 1]
+
+def cycles : Nat → List Op
+  | 0 => []
+  | n + 1 => starveCycle ++ cycles n
+
+theorem C20_breaks_starvation_round :
+    let s := (run (init 2) starvePre).1
+    (1, ({ rooms := [1], ch := 1 } : Req)) ∈ s.reqs ∧ 1 ∉ s.dead ∧
+    (run s starveCycle).1 = s ∧
+    (run s starveCycle).2 = [[], [], [(2, 2)], [(3, 1)]] := by decide
+
+/-- for EVERY number of rounds: same state again, and no grant ever goes to peer 1's channel -/
+theorem C20_breaks_starvation (n : Nat) :
+    let s := (run (init 2) starvePre).1
+    (run s (cycles n)).1 = s ∧ ∀ g ∈ (run s (cycles n)).2, ∀ x ∈ g, x.1 ≠ 1 := by
+  intro s
+  induction n with
+  | zero => simp [cycles, run]
+  | succ n ih =>
+    have h := C20_breaks_starvation_round
+    simp only at h
+    obtain ⟨_, _, h3, h4⟩ := h
+    simp only [cycles, run_append]
+    rw [h3]
+    refine ⟨ih.1, ?_⟩
+    intro g hg
+    rcases List.mem_append.mp hg with hg | hg
+    · rw [h4] at hg
+      intro x hx
+      simp only [List.mem_cons, List.not_mem_nil, or_false] at hg
+      rcases hg with hg | hg | hg | hg <;> subst hg <;> simp at hx <;> subst hx <;> decide
+    · exact ih.2 g hg
+
 /-! ### non-vacuity: concrete reachable states meeting the hypotheses -/
 
 example : (run (init 1) [.request 1 [5, 6] 1, .request 2 [5, 6] 2, .unlock 6]).2
